@@ -228,4 +228,285 @@ Proof.
     eapply cls_later; [exact L|eapply flush_cls; eauto].
 Qed.
 
+(* ------------------------------------------------------------------------------------------------------------ *)
+(* the first failing line *)
+
+Lemma run_from_err : forall ls (s : st) e w, run_from ls s = Err e w ->
+  exists p l r s', ls = p ++ l :: r /\ run_upto p s = Ok s' /\ step_line l s' = Err e w.
+Proof.
+  induction ls as [|l r IH]; intros s e w; cbn.
+  - discriminate.
+  - destruct (step_line l s) as [s1|e1 w1] eqn:E1; cbn.
+    + destruct r as [|l2 r2]; [discriminate|]. intros E.
+      destruct (IH _ _ _ E) as (p & l' & r' & s' & Hl & Hp & Hs).
+      exists (l :: p), l', r', s'. split; [cbn; rewrite Hl; reflexivity|]. split; [|exact Hs].
+      cbn. rewrite E1. cbn. exact Hp.
+    + intros E; inversion E; subst. exists [], l, r, s. auto.
+Qed.
+
+Lemma run_from_ok : forall ls (s s' : st), ls <> [] -> run_from ls s = Ok s' ->
+  exists p l s0, ls = p ++ [l] /\ run_upto p s = Ok s0 /\ step_line l s0 = Ok s'.
+Proof.
+  intros ls s s' NE E. destruct (exists_last NE) as (p & l & ->).
+  rewrite (run_from_last T V D W read_dep emit) in E.
+  destruct (run_upto p s) as [s0|] eqn:Ep; [|discriminate]. cbn in E.
+  exists p, l, s0. auto.
+Qed.
+
+(* ------------------------------------------------------------------------------------------------------------ *)
+(* the line remembered with the queued attribute is the line of its statement *)
+
+Definition quiet (l : line) : Prop := l_stmt T V D l = None /\ is_empty_text T V D l = false.
+
+(* q = (a, cf, n) was queued by a statement of ls (which starts on line n0) and nothing has flushed since *)
+Definition queued_at (ls : list line) (n0 : Z) (q : attr T V * bool * Z) : Prop :=
+  exists p1 l1 r1 pre, ls = p1 ++ l1 :: r1 /\ l_stmt T V D l1 = Some (Stmt pre (XAttr (fst (fst q)) (snd (fst q))))
+    /\ snd q = phys_after n0 p1 /\ Forall quiet r1.
+
+Lemma flush_good_pending : forall s f : st, good T V W s -> flush s = Ok f -> pending f = None.
+Proof.
+  intros [c h p cl cu d ln w] f G. unfold good in G. cbn in G. unfold Lines.flush. cbn.
+  destruct h.
+  - rewrite (G eq_refl). intros E; inversion E; reflexivity.
+  - destruct p as [[[a cf] k]|]; [destruct (commit_fails T V a cf cu)|]; intros E; inversion E; reflexivity.
+Qed.
+
+Lemma do_act_pending : forall x (s s1 : st) q, good T V W s -> do_act x s = Ok s1 -> pending s1 = Some q ->
+  header T V W s1 = false /\ exists a cf, x = XAttr a cf /\ q = (a, cf, line_no s).
+Proof.
+  intros x s s1 q G. unfold Lines.do_act. destruct (flush s) as [f|] eqn:Ef; [|discriminate]. cbn.
+  pose proof (flush_good_pending _ _ G Ef) as Pf. pose proof (flush_line _ _ Ef) as Lf.
+  pose proof (flush_good T V W _ _ Ef) as Hf.
+  destruct x.
+  - destruct (c_mode T V (cur T V W f)) as [[|z]|]; unfold raise_here, raise_at; intros E; inversion E; cbn;
+      intros Q; inversion Q; (split; [exact Hf|]); exists a, cfault; rewrite Lf; auto.
+  - intros E Q. apply (do_dir_frame T V W emit) in E. destruct E as (_ & P & _). congruence.
+  - cbn. destruct (closed T V W f); unfold raise_here, raise_at; intros E; inversion E. cbn. congruence.
+Qed.
+
+Lemma step_line_pending : forall l (s s1 : st) q, good T V W s -> step_line l s = Ok s1 -> pending s1 = Some q ->
+  (header T V W s1 = false /\ exists pre a cf, l_stmt T V D l = Some (Stmt pre (XAttr a cf)) /\ q = (a, cf, line_no s))
+  \/ (quiet l /\ pending s = Some q /\ header T V W s1 = header T V W s).
+Proof.
+  intros l s s1 q G. unfold Lines.step_line, quiet, is_empty_text.
+  assert (A : forall s0 : st, pending (add_comment T V D W l s0) = pending s0 /\ header T V W (add_comment T V D W l s0) = header T V W s0).
+  { intros s0. unfold add_comment. destruct (l_comment T V D l); auto. }
+  destruct (l_stmt T V D l) as [[pre x]|].
+  - unfold Lines.do_stmt. cbn [s_pre s_act]. destruct (run_pre pre s) as [s2|] eqn:E2; [|discriminate]. cbn.
+    destruct (do_act x s2) as [s3|] eqn:E3; [|discriminate]. cbn. intros E Q. inversion E; subst.
+    destruct (A s3) as [A1 A2]. rewrite A1 in Q.
+    pose proof (run_pre_good T V D W read_dep _ _ _ G E2) as G2.
+    destruct (do_act_pending _ _ _ _ G2 E3 Q) as (H3 & a & cf & -> & ->).
+    left. split; [congruence|]. exists pre, a, cf. split; [reflexivity|].
+    rewrite (run_pre_line _ _ _ E2). reflexivity.
+  - cbn. destruct (A s) as [A1 A2].
+    destruct (l_comment T V D l) eqn:Ec.
+    + intros E Q. inversion E; subst. right. rewrite A1 in Q. auto.
+    + destruct (negb (l_blanks T V D l)).
+      * intros E Q. exfalso.
+        assert (G' : good T V W (add_comment T V D W l s)) by (unfold add_comment; rewrite Ec; exact G).
+        rewrite (flush_good_pending _ _ G' E) in Q. discriminate.
+      * intros E Q. inversion E; subst. right. rewrite A1 in Q. auto.
+Qed.
+
+Lemma queued_at_cons : forall l r n0 q, queued_at r (n0 + 1 + l_extra T V D l) q -> queued_at (l :: r) n0 q.
+Proof.
+  intros l r n0 q (p1 & l1 & r1 & pre & H1 & H2 & H3 & H4).
+  exists (l :: p1), l1, r1, pre. split; [cbn; rewrite H1; reflexivity|]. auto.
+Qed.
+
+Lemma pending_origin : forall ls (s s' : st) q, good T V W s -> run_upto ls s = Ok s' -> pending s' = Some q ->
+  queued_at ls (line_no s) q \/ (pending s = Some q /\ Forall quiet ls).
+Proof.
+  induction ls as [|l r IH]; intros s s' q G; cbn.
+  - intros E Q. inversion E; subst. right. auto.
+  - destruct (step_line l s) as [s1|] eqn:E1; [|discriminate]. cbn. intros E Q.
+    pose proof (step_line_good T V D W read_dep emit _ _ _ G E1) as G1.
+    assert (G1' : good T V W (next_line l s1)) by exact G1.
+    destruct (IH _ _ _ G1' E Q) as [H|[H1 H2]].
+    + left. apply queued_at_cons. cbn in H. rewrite (step_line_line _ _ _ E1) in H. exact H.
+    + cbn in H1. destruct (step_line_pending _ _ _ _ G E1 H1) as [(_ & pre & a & cf & Hs & ->)|(Hq & Hp & _)].
+      * left. exists [], l, r, pre. cbn. auto.
+      * right. split; [exact Hp|]. constructor; assumption.
+Qed.
+
+(* C17_line_commit, part 1: in every reachable state the remembered line is the physical line of the attribute statement *)
+Theorem pending_line : forall p w (s : st) q, run_upto p (init T V W w) = Ok s -> pending s = Some q -> queued_at p 1 q.
+Proof.
+  intros p w s q E Q. destruct (pending_origin _ _ _ _ (good_init T V W w) E Q) as [H|[H _]]; [exact H|discriminate].
+Qed.
+
+(* the complete characterisation of the location of an error raised while line l (which follows p) is visited *)
+Theorem error_location : forall p l w (s : st) e w', run_upto p (init T V W w) = Ok s -> step_line l s = Err e w' ->
+  e = ELoc None (Some (phys_after 1 p))
+  \/ (exists q, queued_at p 1 q /\ e = ELoc None (Some (snd q)))
+  \/ (exists d w0 w1 e0, read_dep d w0 = (w1, Some e0) /\ e = inject_line e0 (phys_after 1 p)).
+Proof.
+  intros p l w s e w' E1 E2. pose proof (line_counter _ _ _ E1) as L. cbn in L.
+  destruct (step_line_cls _ _ _ _ E2) as [H|a cf n H He|d w0 w1 e0 H He].
+  - left. congruence.
+  - right. left. exists (a, cf, n). split; [eapply pending_line; eauto|exact He].
+  - right. right. exists d, w0, w1, e0. split; [exact H|congruence].
+Qed.
+
+(* ... and of an error raised after the last line: parse()'s final flush or finalize() *)
+Theorem finish_location : forall ls w (s : st) e w', run_upto ls (init T V W w) = Ok s ->
+  Lines.finish T V W s = Err e w' ->
+  e = no_loc \/ (exists q, queued_at ls 1 q /\ e = ELoc None (Some (snd q))).
+Proof.
+  intros ls w s e w' E1. unfold Lines.finish. destruct (flush s) as [f|e1 w1] eqn:Ef; cbn.
+  - unfold Lines.finalize. intros E. left.
+    destruct (closed T V W f); [destruct (close T V s0); [destruct (close T V (cur T V W f))|]|destruct (close T V (cur T V W f))];
+      inversion E; reflexivity.
+  - intros E; inversion E; subst. right.
+    destruct (flush_err _ _ _ Ef) as (_ & a & cf & n & P & _ & He & _).
+    exists (a, cf, n). split; [eapply pending_line; eauto|exact He].
+Qed.
+
+(* ------------------------------------------------------------------------------------------------------------ *)
+(* a queued attribute whose construction raises cannot be lost, and the error carries the line of its statement *)
+
+Notation run := (Lines.run T V D W read_dep emit).
+Notation finish := (Lines.finish T V W).
+
+(* the queued attribute will raise when constructed, and it was queued on line n *)
+Definition doomed (n : Z) (s : st) : Prop :=
+  header T V W s = false /\ exists a, pending s = Some (a, true, n).
+
+Lemma doomed_flush : forall n (s : st), doomed n s -> flush s = Err (ELoc None (Some n)) (world s).
+Proof.
+  intros n [c h p cl cu d ln w] (H & a & P). cbn in H, P. subst. unfold Lines.flush. cbn. reflexivity.
+Qed.
+
+(* the statement visits an identifier (or nothing) first: its first effect is a flush *)
+Definition flush_first (x : stmt T V D) : Prop :=
+  match s_pre T V D x with [] => True | PIdent :: _ => True | _ => False end.
+
+Lemma doomed_stmt : forall n x (s : st), doomed n s -> flush_first x -> do_stmt x s = Err (ELoc None (Some n)) (world s).
+Proof.
+  intros n [pre act] s Dm F. unfold flush_first in F. cbn in F. unfold Lines.do_stmt. cbn [s_pre s_act].
+  destruct pre as [|[| | |d] pre]; try contradiction.
+  - cbn. unfold Lines.do_act. rewrite (doomed_flush _ _ Dm). reflexivity.
+  - cbn. rewrite (doomed_flush _ _ Dm). reflexivity.
+Qed.
+
+Lemma doomed_quiet : forall n l (s : st), doomed n s -> quiet l -> exists s1, step_line l s = Ok s1 /\ doomed n s1 /\ line_no s1 = line_no s.
+Proof.
+  intros n l s Dm [Q1 Q2]. unfold Lines.step_line. rewrite Q1, Q2. cbn.
+  exists (add_comment T V D W l s). split; [reflexivity|]. unfold add_comment. destruct (l_comment T V D l); auto.
+Qed.
+
+Lemma doomed_line : forall n l (s : st), doomed n s -> (forall x, l_stmt T V D l = Some x -> flush_first x) ->
+  (exists s1, step_line l s = Ok s1 /\ doomed n s1) \/ exists w, step_line l s = Err (ELoc None (Some n)) w.
+Proof.
+  intros n l s Dm F. destruct (l_stmt T V D l) as [x|] eqn:Es.
+  - right. unfold Lines.step_line. rewrite Es. rewrite (doomed_stmt _ _ _ Dm (F x eq_refl)). cbn. eauto.
+  - destruct (is_empty_text T V D l) eqn:Em.
+    + right. unfold Lines.step_line. rewrite Es, Em. cbn.
+      assert (Dm' : doomed n (add_comment T V D W l s)) by (unfold add_comment; destruct (l_comment T V D l); exact Dm).
+      rewrite (doomed_flush _ _ Dm'). eauto.
+    + left. destruct (doomed_quiet n l s Dm (conj Es Em)) as (s1 & H1 & H2 & _). eauto.
+Qed.
+
+Lemma doomed_run : forall n r (s : st), doomed n s -> Forall (fun l => forall x, l_stmt T V D l = Some x -> flush_first x) r ->
+  (exists s1, run_from r s = Ok s1 /\ doomed n s1) \/ exists w, run_from r s = Err (ELoc None (Some n)) w.
+Proof.
+  induction r as [|l r IH]; intros s Dm F.
+  - left. exists s. auto.
+  - inversion F as [|? ? F1 F2]; subst. cbn.
+    destruct (doomed_line n l s Dm F1) as [(s1 & E1 & D1)|(w & E1)]; rewrite E1; cbn.
+    + destruct r as [|l2 r2]; [left; eauto|]. apply IH; [exact D1|exact F2].
+    + right. eauto.
+Qed.
+
+(* C17_line_commit: an attribute statement on the line after p whose construction will raise (cfault) - if it is queued
+   at all, the run ends with an error at exactly that physical line, whatever follows (comments, blank lines, the end of
+   the text with or without line feed), provided the following statements begin by visiting an identifier or have no
+   sub-expressions (every statement of the grammar except those that start with a literal capacity / width fault) *)
+Theorem commit_line : forall p l r pre a w (s0 s1 : st),
+  run_upto p (init T V W w) = Ok s0 -> l_stmt T V D l = Some (Stmt pre (XAttr a true)) -> step_line l s0 = Ok s1 ->
+  Forall (fun l' => forall x, l_stmt T V D l' = Some x -> flush_first x) r ->
+  exists w', run (p ++ l :: r) w = Err (ELoc None (Some (phys_after 1 p))) w'.
+Proof.
+  intros p l r pre a w s0 s1 E0 Hs E1 F.
+  pose proof (run_upto_good T V D W read_dep emit _ _ _ (good_init T V W w) E0) as G0.
+  pose proof (line_counter _ _ _ E0) as L0. cbn in L0.
+  assert (Dm : doomed (phys_after 1 p) s1).
+  { pose proof E1 as E1'. unfold Lines.step_line in E1'. rewrite Hs in E1'. unfold Lines.do_stmt in E1'. cbn [s_pre s_act] in E1'.
+    destruct (run_pre pre s0) as [s2|] eqn:E2; [|discriminate]. cbn in E1'.
+    destruct (do_act (XAttr a true) s2) as [s3|] eqn:E3; [|discriminate]. cbn in E1'.
+    unfold is_empty_text in E1'. rewrite Hs in E1'. inversion E1'; subst. clear E1'.
+    pose proof (run_pre_good T V D W read_dep _ _ _ G0 E2) as G2.
+    unfold Lines.do_act in E3. destruct (flush s2) as [f|] eqn:Ef; [|discriminate]. cbn in E3.
+    pose proof (flush_good T V W _ _ Ef) as Hf. pose proof (flush_line _ _ Ef) as Lf. pose proof (run_pre_line _ _ _ E2) as L2.
+    destruct (c_mode T V (cur T V W f)) as [[|z]|]; unfold raise_here, raise_at in E3; inversion E3; subst; clear E3;
+      (split; [unfold add_comment; destruct (l_comment T V D l); exact Hf|]); exists a;
+      unfold add_comment; destruct (l_comment T V D l); cbn; rewrite Lf, L2, L0; reflexivity. }
+  unfold Lines.run. rewrite (run_from_split T V D W read_dep emit). rewrite E0. cbn [Lines.bind].
+  destruct r as [|l2 r2].
+  - cbn [Lines.run_from]. rewrite E1. cbn [Lines.bind]. unfold Lines.finish. rewrite (doomed_flush _ _ Dm). cbn [Lines.bind]. eauto.
+  - assert (Dm' : doomed (phys_after 1 p) (next_line l s1)) by exact Dm.
+    change (run_from (l :: l2 :: r2) s0) with (Lines.bind W (step_line l s0) (fun s1 => run_from (l2 :: r2) (next_line l s1))).
+    rewrite E1. cbn [Lines.bind].
+    destruct (doomed_run _ (l2 :: r2) _ Dm' F) as [(s2 & E2 & D2)|(w2 & E2)]; rewrite E2; cbn [Lines.bind].
+    + unfold Lines.finish. rewrite (doomed_flush _ _ D2). cbn [Lines.bind]. eauto.
+    + eauto.
+Qed.
+
+(* without any condition on what follows: the run never succeeds (F1 cannot come back) *)
+Lemma doomed_any_line : forall n l (s s1 : st), doomed n s -> step_line l s = Ok s1 -> exists m, doomed m s1.
+Proof.
+  intros n l s s1 Dm. destruct (l_stmt T V D l) as [[pre act]|] eqn:Es.
+  - unfold Lines.step_line. rewrite Es. unfold Lines.do_stmt. cbn [s_pre s_act].
+    assert (P : forall ps (s2 s3 : st), doomed n s2 -> run_pre ps s2 = Ok s3 -> doomed n s3).
+    { induction ps as [|q ps IH]; intros s2 s3 D2; cbn.
+      - intros E; inversion E; subst; exact D2.
+      - destruct q; cbn.
+        + rewrite (doomed_flush _ _ D2). discriminate.
+        + apply IH. exact D2.
+        + discriminate.
+        + destruct (read_dep d (world s2)) as [w1 [e1|]]; [discriminate|]. cbn. apply IH. exact D2. }
+    destruct (run_pre pre s) as [s2|] eqn:E2; [|discriminate]. cbn.
+    unfold Lines.do_act. rewrite (doomed_flush _ _ (P _ _ _ Dm E2)). discriminate.
+  - destruct (is_empty_text T V D l) eqn:Em.
+    + unfold Lines.step_line. rewrite Es, Em. cbn.
+      assert (Dm' : doomed n (add_comment T V D W l s)) by (unfold add_comment; destruct (l_comment T V D l); exact Dm).
+      rewrite (doomed_flush _ _ Dm'). discriminate.
+    + destruct (doomed_quiet n l s Dm (conj Es Em)) as (s1' & H1 & H2 & _). intros E. exists n. congruence.
+Qed.
+
+Theorem commit_not_lost : forall p l r pre a w, l_stmt T V D l = Some (Stmt pre (XAttr a true)) ->
+  forall m w', run (p ++ l :: r) w <> Ok (m, w').
+Proof.
+  intros p l r pre a w Hs m w' E. unfold Lines.run in E. rewrite (run_from_split T V D W read_dep emit) in E.
+  destruct (run_upto p (init T V W w)) as [s0|] eqn:E0; [|discriminate]. cbn [Lines.bind] in E.
+  pose proof (run_upto_good T V D W read_dep emit _ _ _ (good_init T V W w) E0) as G0.
+  change (run_from (l :: r) s0) with (Lines.bind W (step_line l s0) (fun s1 => match r with [] => Ok s1 | _ :: _ => run_from r (next_line l s1) end)) in E.
+  destruct (step_line l s0) as [s1|] eqn:E1; [|discriminate]. cbn [Lines.bind] in E.
+  assert (Dm : exists n, doomed n s1).
+  { pose proof E1 as E1'. unfold Lines.step_line in E1'. rewrite Hs in E1'. unfold Lines.do_stmt in E1'. cbn [s_pre s_act] in E1'.
+    destruct (run_pre pre s0) as [s2|] eqn:E2; [|discriminate]. cbn in E1'.
+    destruct (do_act (XAttr a true) s2) as [s3|] eqn:E3; [|discriminate]. cbn in E1'.
+    unfold is_empty_text in E1'. rewrite Hs in E1'. inversion E1'; subst. clear E1'.
+    unfold Lines.do_act in E3. destruct (flush s2) as [f|] eqn:Ef; [|discriminate]. cbn in E3.
+    pose proof (flush_good T V W _ _ Ef) as Hf.
+    exists (line_no f).
+    destruct (c_mode T V (cur T V W f)) as [[|z]|]; unfold raise_here, raise_at in E3; inversion E3; subst; clear E3;
+      (split; [unfold add_comment; destruct (l_comment T V D l); exact Hf|]); exists a;
+      unfold add_comment; destruct (l_comment T V D l); reflexivity. }
+  destruct Dm as (n & Dm).
+  assert (R : forall r0 (s s' : st) k, doomed k s -> run_from r0 s = Ok s' -> exists k', doomed k' s').
+  { induction r0 as [|l0 r0 IH]; intros s s' k Dk; cbn.
+    - intros E'; inversion E'; subst. eauto.
+    - destruct (step_line l0 s) as [s2|] eqn:E2; [|discriminate]. cbn.
+      destruct (doomed_any_line _ _ _ _ Dk E2) as (k2 & D2).
+      destruct r0 as [|l3 r3]; [intros E'; inversion E'; subst; eauto|].
+      apply (IH _ _ k2). exact D2. }
+  destruct r as [|l2 r2].
+  - cbn [Lines.bind] in E. unfold Lines.finish in E. rewrite (doomed_flush _ _ Dm) in E. discriminate.
+  - destruct (run_from (l2 :: r2) (next_line l s1)) as [s2|] eqn:E2; [|discriminate]. cbn [Lines.bind] in E.
+    assert (Dm' : doomed n (next_line l s1)) by exact Dm.
+    destruct (R _ _ _ n Dm' E2) as (k & Dk). unfold Lines.finish in E. rewrite (doomed_flush _ _ Dk) in E. discriminate.
+Qed.
+
 End LineProofs.
